@@ -78,7 +78,60 @@ def generate(R: Draw, tier: str) -> dict:
         case["step"] = desc
         case["how"] = how
         case["others"] = [g.doc(R, "small"), g.doc(R, "tiny")]
+    if R.bool(0.3):
+        case = _falsify(R, case)
     return case
+
+
+_FALSY = ["", 0, [], {}, [0, ""], {"k": []}]
+
+
+def _falsify(R: Draw, case: dict) -> dict:
+    """Consistently (per attribute name, injectively) replace some attribute values in the whole case by falsy / nested
+    JSON values - "", 0, [], {} are legitimate attribute values a decoder must not confuse with 'missing'."""
+    table: dict = {}
+    pool = {}
+
+    def sub(name: str, v):  # noqa: ANN001, ANN202
+        if v is None:
+            return v
+        key = (name, json.dumps(v, sort_keys=True))
+        if key not in table:
+            free = pool.setdefault(name, list(range(len(_FALSY))))
+            if free and R.bool(0.5):
+                table[key] = copy.deepcopy(_FALSY[free.pop(R.int(0, len(free) - 1))])
+            else:
+                table[key] = v
+        return copy.deepcopy(table[key])
+
+    def attrs(a: dict) -> dict:
+        return {k: sub(k, v) for k, v in a.items()}
+
+    def walk(x):  # noqa: ANN001, ANN202
+        if isinstance(x, dict):
+            if "t" in x and "a" in x and "m" in x:
+                return {**{k: walk(v) for k, v in x.items() if k not in ("a", "m")}, "a": attrs(x["a"]), "m": [[m[0], attrs(m[1])] for m in x["m"]]}
+            out = {}
+            for k, v in x.items():
+                if k == "mark" and isinstance(v, list) and len(v) == 2 and isinstance(v[1], dict):
+                    out[k] = [v[0], attrs(v[1])]
+                elif k == "value" and "attr" in x:
+                    out[k] = sub(x["attr"], v)
+                else:
+                    out[k] = walk(v)
+            return out
+        if isinstance(x, list):
+            if len(x) == 2 and isinstance(x[0], str) and isinstance(x[1], dict) and "t" not in x[1]:
+                return [x[0], attrs(x[1])]
+            return [walk(v) for v in x]
+        return x
+
+    schema = case["schema"]
+    out = walk({k: v for k, v in case.items() if k != "schema"})
+    out["schema"] = schema
+    if table and any(json.dumps(v, sort_keys=True) != k[1] for k, v in table.items()):
+        out["falsy"] = True
+    return out
 
 
 def _mutate_deep(j):  # noqa: ANN001, ANN202
@@ -127,6 +180,8 @@ def check(case: dict, ctx: Ctx) -> None:
     doc = P.build(lib, doc_p)
     kind = case["kind"]
     sk = case["schema"] if isinstance(case["schema"], str) else "random"
+    if case.get("falsy"):
+        ctx.label("attrs:falsy-or-nested-values")
     if kind == "doc":
         y, _ = _roundtrip("node", doc, lambda x: x.to_json(), lambda j: Node.from_json(lib, j), P.plain, ctx)
         e = call("eq", doc.eq, y)
